@@ -107,7 +107,7 @@ package kfake
 // the torn frame, where readEntries never reaches them.
 //@ func truncateStateLog(fsys fs, path string, size int64) (err error)
 //@   prop C33
-//@   site call OpenFile#0 assert [the-named-file] arg0 == path
+//@   site call OpenFile#0 assert [the-named-file-opened-for-writing-without-truncation] arg0 == path && arg1 == 1
 //@   site call Truncate#0 assert [to-the-given-size] arg0 == size
 //@   ensures [nil-means-truncated-and-synced] err == nil ==> (reached($Truncate0) && $Truncate0 == nil && reached($Sync0) && $Sync0 == nil)
 //@ func (c *Cluster) loadPIDsLog(fsys fs, dir string) (err error)
@@ -153,3 +153,11 @@ package kfake
 //@   loop 0 invariant 0 <= n && n <= rangeindex + 1 && rangeindex < len(pd.segments) && -1 <= rangeindex
 //@   loop 0 invariant len(pd.segments) == old(len(pd.segments))
 //@   loop 0 invariant forall k in 0..n :: len(pd.segments[k].index) > 0
+
+// saveSessionState (clean Close), the open-transaction part: every partition of an open transaction is saved under
+// its topic - a topic's map is created only when it has none yet, so a second partition of the same topic does not
+// replace the first.
+//@ func (c *Cluster) saveSessionState$3(t string, p int32, off *int64)
+//@   prop C33
+//@   site mapupdate map[int32]int64#0 assert [topic-map-created-only-when-absent] mapkey == t && !had
+//@   site mapupdate int64#0 assert [partition-saved-with-its-first-offset] mapkey == p && val == *off
